@@ -340,8 +340,16 @@ func varargValues(args []ssa.Value) []ssa.Value {
 			for _, r2 := range *ia.Referrers() {
 				if st, ok := r2.(*ssa.Store); ok {
 					v := st.Val
-					if mi, ok := v.(*ssa.MakeInterface); ok {
-						v = mi.X
+					for {
+						if mi, ok := v.(*ssa.MakeInterface); ok {
+							v = mi.X
+							continue
+						}
+						if ci, ok := v.(*ssa.ChangeInterface); ok {
+							v = ci.X
+							continue
+						}
+						break
 					}
 					out = append(out, v)
 				}
